@@ -190,11 +190,13 @@ struct Vals {
     Real k = 0, x0 = 0, c = 0, f = 0, d = 0, qlo = 0, qhi = 0;
     Vec6 bk = Vec6(0), bc = Vec6(0); Transform X1, X2;
     Vec3 down = Vec3(0, -1, 0); Real gmag = 0, zeroHeight = 0; std::vector<bool> excluded;
+    Vec3 gvec = Vec3(0);   // Gravity: the last vector given to the constructor / setGravityVector if its norm is still the magnitude, else gmag*down
     Vector mobF; Vector_<SpatialVec> bodyF;   // DiscreteForces: empty == all zero
 };
 inline Vals initialVals(const ForceSpec& f) {
     Vals v; v.disabled = f.disabledByDefault; v.k = f.k; v.x0 = f.x0; v.c = f.c; v.f = f.f; v.d = f.d; v.qlo = f.qlo; v.qhi = f.qhi;
     v.bk = f.bk; v.bc = f.bc; v.X1 = f.X1; v.X2 = f.X2; v.down = f.down; v.gmag = f.gmag; v.zeroHeight = f.zeroHeight; v.excluded = f.defExcluded;
+    v.gvec = (f.kind == Gravity && f.gravCtor == 1) ? f.vec : f.gmag * f.down;
     return v;
 }
 
@@ -203,7 +205,7 @@ enum OpWhat { OpEnable = 0, OpDisable, OpSetA, OpSetB, OpSetC, OpSetD, OpSetE, O
 struct Op {
     int elem = 0; int what = OpDisable; std::string name;
     Real a = 0, b = 0; Vec3 v = Vec3(0), v2 = Vec3(0); Vec6 v6 = Vec6(0); Transform X; int body = 0, coord = 0; bool flag = false;
-    Vector vecU; Vector_<SpatialVec> vecB;
+    Vector vecU; Vector_<SpatialVec> vecB; bool structured = false;
     bool isParam() const { return what >= OpSetA; }
     void describe(std::ostream& o) const { o.precision(17); o << "elem#" << elem << " " << name; }
 };
@@ -223,8 +225,32 @@ inline std::vector<const char*> setterNames(int kind) {
     }
 }
 
-// Decode an op from a reader (consumes <= 40 words). elems must be non-empty.
-inline Op decodeOp(pbt::Reader& r, const std::vector<Element>& elems, const mbgen::ModelSpec& m) {
+// ---- structured new values derived from the current one (same norm / same value / exact scaling / one component only):
+// they exercise "did THIS kind of change invalidate what it must" (e.g. a direction-only change of a vector parameter).
+inline Real deriveScalar(Real cur, Real fresh, int mode, bool allowNeg) {
+    switch (mode % 8) { case 0: case 4: return cur; case 1: return 2 * cur; case 2: return 0.5 * cur; case 3: return allowNeg ? -cur : cur; case 5: return allowNeg ? -2 * cur : 2 * cur;
+                        case 6: return cur == 0 ? fresh : (allowNeg ? -0.5 * cur : 0.5 * cur); default: return cur == 0 ? fresh : cur; }
+}
+inline Vec3 deriveVec3(const Vec3& c, const Vec3& fresh, int mode, int k) {
+    k = ((k % 3) + 3) % 3; Vec3 v = c;
+    switch (mode % 8) { case 0: return c;                                   // the same value again
+                        case 1: return -c;                                  // negated (exactly the same norm)
+                        case 2: return Vec3(c[1], c[2], c[0]);              // components permuted
+                        case 3: v[k] = -v[k]; return v;                     // one sign flipped (exactly the same norm)
+                        case 4: return 2.0 * c;                             // exact scaling (same direction)
+                        case 5: return 0.5 * c;
+                        case 6: v[k] = fresh[k]; return v;                  // one component changed only
+                        default: std::swap(v[k], v[(k + 1) % 3]); return v; }   // two components swapped
+}
+inline Vec6 deriveVec6(const Vec6& c, const Vec6& fresh, int mode, int k) {
+    k = ((k % 6) + 6) % 6; Vec6 v = c;
+    switch (mode % 6) { case 0: return c; case 1: for (int i = 0; i < 6; ++i) v[i] = c[(i + 1) % 6]; return v; case 2: return 2.0 * c; case 3: return 0.5 * c; case 4: v[k] = fresh[k]; return v;
+                        default: std::swap(v[k], v[(k + 1) % 6]); return v; }
+}
+
+// Decode an op from a reader (consumes <= 42 words). elems must be non-empty. If `cur` (the current values of all elements) is
+// given, half of the parameter operations take a STRUCTURED new value derived from the current one instead of a fresh random one.
+inline Op decodeOp(pbt::Reader& r, const std::vector<Element>& elems, const mbgen::ModelSpec& m, const std::vector<Vals>* cur = nullptr) {
     Op op; const int nb = m.nBodies(); int nu = 0; for (auto& b : m.bodies) nu += mbgen::mobNU(b.type);
     op.elem = r.pick((int)elems.size());
     const ForceSpec& fs = elems[op.elem].spec;
@@ -240,43 +266,100 @@ inline Op decodeOp(pbt::Reader& r, const std::vector<Element>& elems, const mbge
     Vec3 v1 = mbgen::readVec3(r, -10, 10), v2 = mbgen::readVec3(r, -10, 10), st = mbgen::readVec3(r, -0.8, 0.8);
     Rotation R = mbgen::readRotation(r);
     Vec6 c6; for (int i = 0; i < 6; ++i) c6[i] = readCoef(r, 0.05, 100);
-    uint32_t wv = r.w();
+    uint32_t wv = r.w(), wm = r.w();
     op.body = int(wa % uint32_t(nb + 1)); op.flag = (wb & 1u) != 0;
     std::ostringstream nm; nm.precision(17);
     if (!op.isParam()) { nm << (op.what == OpDisable ? "disable" : "enable"); op.name = nm.str(); return op; }
-    const int si = op.what - OpSetA; nm << kindName(fs.kind) << "::" << setters[si] << "(";
+    const int si = op.what - OpSetA;
+    const bool structured = cur != nullptr && (wm & 1u) != 0; const int mode = int((wm >> 1) % 840u), comp = int((wm >> 12) % 6u);
+    const Vals* c = cur ? &(*cur)[op.elem] : nullptr;
+    std::vector<int> mobAny; for (int i = 0; i < nb; ++i) if (mbgen::mobNU(m.bodies[i].type) > 0) mobAny.push_back(i + 1);
+    // ---- 1. fresh random value
     switch (fs.kind) {
         case Gravity:
-            if (si == 0) { op.a = (wb & 7u) == 7u ? 0 : v1.norm(); nm << op.a; }
-            else if (si == 1) { op.v = v1.norm() > 0 ? v1 : Vec3(0, 0, 1); nm << op.v; }
-            else if (si == 2) { op.a = zh; nm << op.a; }
-            else if (si == 3) { nm << "body " << op.body << ", " << op.flag; }
-            else { op.v = (wb & 7u) == 7u ? Vec3(0) : v1; nm << op.v; }
+            if (si == 0) op.a = (wb & 7u) == 7u ? 0 : v1.norm();
+            else if (si == 1) op.v = v1.norm() > 0 ? v1 : Vec3(0, 0, 1);
+            else if (si == 2) op.a = zh;
+            else if (si == 4) op.v = (wb & 7u) == 7u ? Vec3(0) : v1;
             break;
-        case MobilityLinearSpring: op.a = si == 0 ? coef : rq; nm << op.a; break;
-        case MobilityLinearDamper: op.a = coef2; nm << op.a; break;
-        case MobilityConstantForce: case MobilityDiscreteForce: op.a = rf; nm << op.a; break;
+        case MobilityLinearSpring: op.a = si == 0 ? coef : rq; break;
+        case MobilityLinearDamper: op.a = coef2; break;
+        case MobilityConstantForce: case MobilityDiscreteForce: op.a = rf; break;
         case MobilityLinearStop:
             if (si == 0) { switch (wBounds % 8u) { case 1: op.a = -Infinity; op.b = lo; break; case 2: op.a = lo; op.b = Infinity; break; case 3: op.a = -Infinity; op.b = Infinity; break; case 4: op.a = op.b = lo; break;
                                                    default: op.a = lo - 0.5 * width; op.b = lo + 0.5 * width; break; } }
             else { op.a = coef; op.b = coef3; }
-            nm << op.a << ", " << op.b; break;
-        case DiscreteForces: {
-            // mobilizer with nu > 0 for setOneMobilityForce
-            std::vector<int> mobAny; for (int i = 0; i < nb; ++i) if (mbgen::mobNU(m.bodies[i].type) > 0) mobAny.push_back(i + 1);
-            if (si == 0) { if (mobAny.empty()) { op.body = 0; op.coord = 0; } else { op.body = mobAny[wa % mobAny.size()]; op.coord = int((wa >> 8) % uint32_t(mbgen::mobNU(m.bodies[op.body - 1].type))); } op.a = rf; nm << "mobod " << op.body << ", u#" << op.coord << ", " << op.a; }
-            else if (si == 1) { op.v = v1; op.v2 = v2; nm << "body " << op.body << ", moment " << op.v << ", force " << op.v2; }
-            else if (si == 2) { op.v = st; op.v2 = v2; nm << "body " << op.body << ", point " << op.v << ", force " << op.v2; }
-            else if (si == 3) { if ((wb & 7u) != 7u) { op.vecU.resize(nu); pbt::Seg s; for (int i = 0; i < nu; ++i) s.push_back(wv * 2654435761u + 40503u * (i + 1) * (wb | 1u)); pbt::Reader q(s); for (int i = 0; i < nu; ++i) op.vecU[i] = q.real(-10, 10); } nm << op.vecU; }
-            else if (si == 4) { if ((wb & 7u) != 7u) { op.vecB.resize(nb + 1); pbt::Seg s; for (int i = 0; i < 6 * (nb + 1); ++i) s.push_back(wv * 2246822519u + 3266489917u * (i + 1) * (wb | 1u)); pbt::Reader q(s);
-                                                      for (int i = 0; i <= nb; ++i) { Vec3 a, b; for (int j = 0; j < 3; ++j) { a[j] = q.real(-10, 10); } for (int j = 0; j < 3; ++j) { b[j] = q.real(-10, 10); } op.vecB[i] = SpatialVec(a, b); } } nm << op.vecB; }
-            break; }
+            break;
+        case DiscreteForces:
+            if (si == 0) { if (mobAny.empty()) { op.body = 0; op.coord = 0; } else { op.body = mobAny[wa % mobAny.size()]; op.coord = int((wa >> 8) % uint32_t(mbgen::mobNU(m.bodies[op.body - 1].type))); } op.a = rf; }
+            else if (si == 1) { op.v = v1; op.v2 = v2; }
+            else if (si == 2) { op.v = st; op.v2 = v2; }
+            else if (si == 3) { if ((wb & 7u) != 7u) { op.vecU.resize(nu); pbt::Seg sg; for (int i = 0; i < nu; ++i) sg.push_back(wv * 2654435761u + 40503u * (i + 1) * (wb | 1u)); pbt::Reader q(sg); for (int i = 0; i < nu; ++i) op.vecU[i] = q.real(-10, 10); } }
+            else if (si == 4) { if ((wb & 7u) != 7u) { op.vecB.resize(nb + 1); pbt::Seg sg; for (int i = 0; i < 6 * (nb + 1); ++i) sg.push_back(wv * 2246822519u + 3266489917u * (i + 1) * (wb | 1u)); pbt::Reader q(sg);
+                                                      for (int i = 0; i <= nb; ++i) { Vec3 a, b; for (int j = 0; j < 3; ++j) { a[j] = q.real(-10, 10); } for (int j = 0; j < 3; ++j) { b[j] = q.real(-10, 10); } op.vecB[i] = SpatialVec(a, b); } } }
+            break;
         case LinearBushing:
-            if (si <= 1) { op.v6 = c6; nm << op.v6; } else { op.X = (wb & 7u) == 7u ? Transform() : Transform(R, st); nm << "p=" << op.X.p() << " R(quat)=" << op.X.R().convertRotationToQuaternion().asVec4(); }
+            if (si <= 1) op.v6 = c6; else op.X = (wb & 7u) == 7u ? Transform() : Transform(R, st);
             break;
         default: break;
     }
-    nm << ")"; op.name = nm.str();
+    // ---- 2. structured value derived from the current one (documented domains are preserved: coefficients stay >= 0, qLow <= qHigh)
+    if (structured) {
+        nm << "[derived from current, mode " << mode % 8 << "] ";
+        switch (fs.kind) {
+            case Gravity:
+                if (si == 0) op.a = deriveScalar(c->gmag, op.a, mode, false);
+                else if (si == 1) op.v = deriveVec3(c->down, op.v, mode % 4 == 0 ? 0 : (mode % 4 == 1 ? 1 : mode % 4 == 2 ? 2 : 3), comp);        // directions: same / negated / permuted / one sign flipped
+                else if (si == 2) op.a = deriveScalar(c->zeroHeight, op.a, mode, true);
+                else if (si == 3) { if (op.body != 0) op.flag = (mode & 1) ? !c->excluded[op.body] : (bool)c->excluded[op.body]; }          // toggle / same
+                else { Vec3 base = c->gvec; op.v = deriveVec3(base, op.v.norm() > 0 ? op.v : Vec3(1, 2, 3), mode, comp); }
+                break;
+            case MobilityLinearSpring: op.a = si == 0 ? deriveScalar(c->k, op.a, mode, false) : deriveScalar(c->x0, op.a, mode, true); break;
+            case MobilityLinearDamper: op.a = deriveScalar(c->c, op.a, mode, false); break;
+            case MobilityConstantForce: case MobilityDiscreteForce: op.a = deriveScalar(c->f, op.a, mode, true); break;
+            case MobilityLinearStop:
+                if (si == 0) { Real flo = op.a, fhi = op.b; op.a = c->qlo; op.b = c->qhi;
+                    switch (mode % 4) { case 1: op.a = std::min(flo, c->qhi); break;                    // only the lower bound changes
+                                        case 2: op.b = std::max(fhi, c->qlo); break;                    // only the upper bound changes
+                                        case 3: if (std::isfinite(c->qlo) && std::isfinite(c->qhi)) { op.a = c->qlo + 0.25; op.b = c->qhi + 0.25; } break;   // both shifted
+                                        default: break; } }                                             // the same bounds again
+                else { Real fk = op.a, fd = op.b; op.a = c->k; op.b = c->d;
+                    switch (mode % 4) { case 1: op.a = fk; break; case 2: op.b = fd; break; case 3: op.a = 2 * c->k; op.b = 0.5 * c->d; break; default: break; } }
+                break;
+            case DiscreteForces:
+                if (si == 0) { if (op.body != 0 && c->mobF.size()) { int u0 = 0; for (int i = 1; i < op.body; ++i) u0 += mbgen::mobNU(m.bodies[i - 1].type); op.a = deriveScalar(c->mobF[u0 + op.coord], op.a, mode, true); } }
+                else if (si == 1) { if (c->bodyF.size()) { if (mode & 8) op.v = deriveVec3(c->bodyF[op.body][0], op.v, mode, comp); else op.v = c->bodyF[op.body][0]; op.v2 = deriveVec3(c->bodyF[op.body][1], op.v2, mode / 16, comp); } }
+                else if (si == 3) { if (c->mobF.size() == nu && nu > 0) { Vector f = c->mobF; switch (mode % 4) { case 1: f *= -1.0; break; case 2: f *= 2.0; break; case 3: f[comp % nu] = op.vecU.size() ? op.vecU[comp % nu] : 1.0; break; default: break; } op.vecU = f; } }
+                else if (si == 4) { if (c->bodyF.size() == nb + 1) { Vector_<SpatialVec> F = c->bodyF; switch (mode % 4) { case 1: F *= -1.0; break; case 2: F *= 0.5; break; case 3: F[comp % (nb + 1)][1] = deriveVec3(F[comp % (nb + 1)][1], v2, mode / 4, comp); break; default: break; } op.vecB = F; } }
+                break;
+            case LinearBushing:
+                if (si == 0) op.v6 = deriveVec6(c->bk, op.v6, mode, comp);
+                else if (si == 1) op.v6 = deriveVec6(c->bc, op.v6, mode, comp);
+                else { const Transform& X = si == 2 ? c->X1 : c->X2;
+                    switch (mode % 4) { case 1: op.X = Transform(X.R(), op.X.p()); break;             // only the origin moves
+                                        case 2: op.X = Transform(op.X.R(), X.p()); break;             // only the orientation changes
+                                        case 3: op.X = Transform(X.R(), -X.p()); break;               // origin mirrored
+                                        default: op.X = X; break; } }                                 // the same frame again
+                break;
+            default: break;
+        }
+    }
+    // ---- 3. name
+    nm << kindName(fs.kind) << "::" << setters[si] << "(";
+    switch (fs.kind) {
+        case Gravity: if (si == 0 || si == 2) nm << op.a; else if (si == 3) nm << "body " << op.body << ", " << op.flag; else nm << op.v; break;
+        case MobilityLinearSpring: case MobilityLinearDamper: case MobilityConstantForce: case MobilityDiscreteForce: nm << op.a; break;
+        case MobilityLinearStop: nm << op.a << ", " << op.b; break;
+        case DiscreteForces:
+            if (si == 0) nm << "mobod " << op.body << ", u#" << op.coord << ", " << op.a;
+            else if (si == 1) nm << "body " << op.body << ", moment " << op.v << ", force " << op.v2;
+            else if (si == 2) nm << "body " << op.body << ", point " << op.v << ", force " << op.v2;
+            else if (si == 3) nm << op.vecU; else if (si == 4) nm << op.vecB;
+            break;
+        case LinearBushing: if (si <= 1) nm << op.v6; else nm << "p=" << op.X.p() << " R(quat)=" << op.X.R().convertRotationToQuaternion().asVec4(); break;
+        default: break;
+    }
+    nm << ")"; op.name = nm.str(); op.structured = structured;
     return op;
 }
 
@@ -289,11 +372,11 @@ inline bool applyOp(const mbgen::Built& m, State& s, const Element& e, Vals& v, 
     const int si = op.what - OpSetA; bool ch = true;
     switch (fs.kind) {
         case Gravity:
-            if (si == 0) { ch = v.gmag != op.a; e.grav.setMagnitude(s, op.a); v.gmag = op.a; }
-            else if (si == 1) { UnitVec3 d(op.v); ch = !(v.down == d.asVec3()); e.grav.setDownDirection(s, d); v.down = d.asVec3(); }
+            if (si == 0) { ch = v.gmag != op.a; e.grav.setMagnitude(s, op.a); v.gmag = op.a; v.gvec = v.gmag * v.down; }
+            else if (si == 1) { UnitVec3 d(op.v); ch = !(v.down == d.asVec3()); e.grav.setDownDirection(s, d); v.down = d.asVec3(); v.gvec = v.gmag * v.down; }
             else if (si == 2) { ch = v.zeroHeight != op.a; e.grav.setZeroHeight(s, op.a); v.zeroHeight = op.a; }
             else if (si == 3) { e.grav.setBodyIsExcluded(s, MobilizedBodyIndex(op.body), op.flag); ch = false; if (op.body != 0) { ch = v.excluded[op.body] != op.flag; v.excluded[op.body] = op.flag; } }   // Ground: documented as ignored
-            else { e.grav.setGravityVector(s, op.v); Real g = op.v.norm(); Vec3 d = g > 0 ? Vec3(op.v / g) : v.down; ch = g != v.gmag || !(d == v.down); v.gmag = g; v.down = d; }   // zero vector: only the magnitude changes (documented)
+            else { e.grav.setGravityVector(s, op.v); Real g = op.v.norm(); Vec3 d = g > 0 ? Vec3(op.v / g) : v.down; ch = g != v.gmag || !(d == v.down); v.gmag = g; v.down = d; v.gvec = g > 0 ? op.v : Vec3(0); }   // zero vector: only the magnitude changes (documented)
             break;
         case MobilityLinearSpring: if (si == 0) { ch = v.k != op.a; e.mls.setStiffness(s, op.a); v.k = op.a; } else { ch = v.x0 != op.a; e.mls.setQZero(s, op.a); v.x0 = op.a; } break;
         case MobilityLinearDamper: ch = v.c != op.a; e.mld.setDamping(s, op.a); v.c = op.a; break;
